@@ -58,6 +58,8 @@ const Matrix<double>& AutoCorrelationTransitionMatrix::getPij() const
         pij_(i, j) = Pij(i, j);
       }
     }
+    // sample() reads eqFreq_ right after this refresh: keep it current as well
+    getEquilibriumFrequencies();
 
     upToDate_ = true;
   }
